@@ -1,14 +1,12 @@
 """C03 -- unmarshal never returns a value outside the target type (DESIGN 7/C03, rows #15 #22 of section 9).
 
 Pipeline
-  prove       Props/C03.v: the repaired routines conform for every input (C03_conforms_fixed), the unrepaired
-              ones conform outside fixed tuples / TypedDicts with required keys (C03_conforms), the two
-              refutation witnesses, "the repairs change nothing else" (C03_repairs_change_nothing_else).
+  prove       Props/C03.v: whatever Core.unm returns conforms, for every input (C03_conforms, C03_conforms_fuel);
+              on record: the two refutation witnesses against the frozen pre-repair semantics unm_pinned.
   correspond  the core correspondence (coreprop.generate + Coq evaluation of the reference semantics on runtime
               tables filled by the implementation's own leaf routines) on an input pool biased to C03: corrupted
               wire forms, JSON / literal text, unrelated objects, instances of other classes, unions of arbitrary
-              members.  Unmarshal cases are evaluated with the REPAIRED semantics (Model/CoreC03.unm_fixed): the
-              check is meant for the tree with proposed_fixes/C03-*.diff applied.
+              members.
               + `conforms` (Coq) against the exact-class reading of the Python oracle on observed results and on
                 deliberately damaged results (the checker is neither vacuous nor stricter than the oracle),
               + the leaf laws of the theorems sampled on every leaf call the mirror made.
@@ -40,8 +38,8 @@ import universe
 from lib import coq_bool, coq_list, coq_nat
 
 COQ_TARGETS = ["theories/Model/CoreC03.vo", "theories/Proofs/CoreC03.vo", "theories/Props/C03.vo"]
-THEOREMS = ["C03_conforms_fixed", "C03_conforms_fixed_fuel", "C03_conforms", "C03_repairs_change_nothing_else",
-            "C03_refuted_short_tuple", "C03_refuted_typeddict", "C03_full_is_false"]
+THEOREMS = ["C03_conforms", "C03_conforms_fuel", "C03_refuted_short_tuple", "C03_refuted_typeddict",
+            "C03_pinned_is_false"]
 STRICT_KINDS = False
 _STATE: dict = {}
 
@@ -213,35 +211,11 @@ def record_leaf_calls(log):
         log.append(("none", self.reg, None, x, v))
         return v
 
-    o_unm = coremodel.Mirror._unm
-
-    def _unm(self, d, x):
-        """the mirror follows the REPAIRED routines (so that the tables hold what unm_fixed asks for); the
-        conversions the unrepaired routines would still make are performed first, so the tables serve both"""
-        k = d[0]
-        if k == "tuple":
-            dd = self.load(x)
-            vs = self.itervalues(dd)
-            if len(vs) < len(d[2]):
-                with contextlib.suppress(coremodel.ModelRaise):
-                    o_unm(self, d, x)
-                raise coremodel.ModelRaise("EValue")
-            return tuple(self.unm(t, v) for t, v in zip(d[2], vs))
-        if k in ("name", "ref", "aliasstr"):
-            n = d[1] if k != "aliasstr" else d[2]
-            df = self.reg.env["defs"][n]
-            if df[0] == "class" and df[1] == "typeddict" and df[2] != "total=False":
-                r = o_unm(self, d, x)
-                if any(f not in r for f, _, _ in df[3]):
-                    raise coremodel.ModelRaise("EType")
-                return r
-        return o_unm(self, d, x)
-
-    coremodel.Mirror.leaf, coremodel.Mirror.none_u, coremodel.Mirror._unm = leaf, none_u, _unm
+    coremodel.Mirror.leaf, coremodel.Mirror.none_u = leaf, none_u
     try:
         yield
     finally:
-        coremodel.Mirror.leaf, coremodel.Mirror.none_u, coremodel.Mirror._unm = o_leaf, o_none, o_unm
+        coremodel.Mirror.leaf, coremodel.Mirror.none_u = o_leaf, o_none
 
 
 def build_stream(run, n_groups, seed_offset, k_adv, judge=True):
@@ -318,14 +292,6 @@ def make_failure(rec, tag, x, result, problems):
 # ----------------------------------------------------------------------------------
 # Coq evaluation
 # ----------------------------------------------------------------------------------
-
-def required_fn(g) -> str:
-    arms = []
-    for n, d in g.env["defs"].items():
-        if d[0] == "class" and d[1] == "typeddict" and d[2] != "total=False":
-            arms.append(f"| {n} => existsb (Nat.eqb f) {coq_list([coq_nat(g.reg.fid(fn)) for fn, _, _ in d[3]], 'nat')}")
-    return "(fun c f : nat => match c with " + " ".join(arms) + " | _ => false end)"
-
 
 def collect_leaf_table(reg, d, v, tbl, depth=0):
     """every (leaf type, value) pair the Coq checker can ask about when it checks v against d"""
@@ -452,16 +418,14 @@ def emit_group(g, name, vcases, strict):
     # NB: enc() above may register new atoms; emit the runtime tables afterwards
     base = g.emit(name, strict)
     lo = coq_list([f"({coq_nat(s)}, {k}, {coq_bool(b)})" for (s, k), b in tbl.items()], "(nat * pv * bool)")
-    extra = (f"Definition required : nat -> nat -> bool := {required_fn(g)}.\n"
-             f"Definition bad_fixed := mismatches (case_ok_fixed rt E required {coremodel.FUEL} {coq_bool(strict)}) cases.\n"
-             f"Definition lo := mk_leaf_ok {lo}.\n"
+    extra = (f"Definition lo := mk_leaf_ok {lo}.\n"
              f"Definition verdicts : list (ty * pv * bool) :=\n  {coq_list(vrows, '(ty * pv * bool)')}.\n"
-             f"Definition bad_verdict := mismatches (verdict_ok rt E lo required {coremodel.FUEL}) verdicts.\n")
+             f"Definition bad_verdict := mismatches (verdict_ok rt E lo {coremodel.FUEL}) verdicts.\n")
     return base.replace(f"End {name}.\n", extra + f"End {name}.\n")
 
 
 def evaluate(run, st, tag, verdict_limit):
-    """-> (bad_fixed [(g, i)], n_old_differs, bad_verdict [(g, vcase)], n_verdicts)"""
+    """-> (bad [(g, i)], bad_verdict [(g, vcase)], n_verdicts)"""
     rng = random.Random(run.seed + 17)
     groups = st["groups"]
     recs_of = {}
@@ -488,25 +452,24 @@ def evaluate(run, st, tag, verdict_limit):
             text += emit_group(g, nm, vc, STRICT_KINDS)
             names.append(nm)
         for nm in names:
-            text += f"Eval vm_compute in {nm}.bad_fixed.\nEval vm_compute in {nm}.bad.\nEval vm_compute in {nm}.bad_verdict.\n"
+            text += f"Eval vm_compute in {nm}.bad.\nEval vm_compute in {nm}.bad_verdict.\n"
         fname = f"cases_{tag}_{fi}.v"
         files[fname] = text
         order.append((fname, chunk))
     results = run.coq_eval_many(files, timeout=900)
-    bad_fixed, bad_verdict, old = [], [], 0
+    bad, bad_verdict = [], []
     nverd = sum(len(v) for v in vc_of.values())
     for fname, chunk in order:
         res = results[fname]
-        if res is None or len(res) != 3 * len(chunk):
+        if res is None or len(res) != 2 * len(chunk):
             run.oblige(f"evaluate:{fname}", False, "model evaluation did not compile")
             for g in chunk:
-                bad_fixed += [(g, i) for i in range(len(g.cases))]
+                bad += [(g, i) for i in range(len(g.cases))]
             continue
         for gi, g in enumerate(chunk):
-            bad_fixed += [(g, i) for i in lib.parse_nat_list(res[3 * gi])]
-            old += len(lib.parse_nat_list(res[3 * gi + 1]))
-            bad_verdict += [(g, vc_of[id(g)][i]) for i in lib.parse_nat_list(res[3 * gi + 2])]
-    return bad_fixed, old, bad_verdict, nverd
+            bad += [(g, i) for i in lib.parse_nat_list(res[2 * gi])]
+            bad_verdict += [(g, vc_of[id(g)][i]) for i in lib.parse_nat_list(res[2 * gi + 1])]
+    return bad, bad_verdict, nverd
 
 
 def ensure_stream(run):
@@ -519,7 +482,7 @@ def ensure_stream(run):
 def correspond(run: lib.Run):
     st = ensure_stream(run)
     groups = st["groups"]
-    bad_fixed, old, bad_verdict, nverd = evaluate(run, st, "c03", run.budget(24, 30))
+    bad, bad_verdict, nverd = evaluate(run, st, "c03", run.budget(24, 30))
     ncases = sum(len(g.cases) for g in groups)
     distinct = len({(g.env["module"], c[0], c[1], c[2]) for g in groups for c in g.cases})
     raised = sum(1 for g in groups for c in g.cases if "Raise" in c[3])
@@ -530,19 +493,15 @@ def correspond(run: lib.Run):
     dist = {"groups": len(groups), "marshal_cases": sum(1 for g in groups for c in g.cases if c[0] == "m"),
             "unmarshal_cases": sum(1 for g in groups for c in g.cases if c[0] == "u"),
             "observed_raise": raised, "observed_ok": ncases - raised, "input_tags": st["tags"], "root_kinds": rootkinds,
-            "cases_where_unrepaired_semantics_differs": old,
-            "rule": "unmarshal cases evaluated with unm_fixed (repaired FixedTuple / StructuredType routines); a case "
-                    "is non-trivial when distinct by (module, direction, root, encoded input)"}
-    run.record_corr("core-unm_fixed-mar", ncases, [g.cases[i][4] for g, i in bad_fixed], distinct, dist)
-    _STATE["mismatch"] = [(g, i) for g, i in bad_fixed]
+            "rule": "Coq evaluates Core.unm / Core.mar on the runtime tables; a case is non-trivial when distinct by "
+                    "(module, direction, root, encoded input)"}
+    run.record_corr("core-unm-mar", ncases, [g.cases[i][4] for g, i in bad], distinct, dist)
+    _STATE["mismatch"] = [(g, i) for g, i in bad]
     if groups and groups[0].cases:
         run.samples.append(groups[0].cases[0][4])
-    run.notes.append(f"{old} of {ncases} cases separate the repaired from the unrepaired reference semantics "
-                     f"(short fixed tuples, TypedDicts without a required key)")
     # Coq `conforms` vs exact-class oracle verdicts
     vb = [{"type": repr(g.pytys[vc[0]])[:200], "value": repr(vc[1])[:300], "python_verdict": vc[2], "what": vc[3]}
           for g, vc in bad_verdict]
-    allv = [vc for g in groups for vc in ()]
     run.record_corr("conforms-verdicts", nverd, vb, nverd,
                     {"rule": "Coq conforms on (root annotation, value) must equal the exact-class reading of the Python "
                              "oracle; values = observed unmarshal results and deliberately damaged copies"})
